@@ -70,13 +70,18 @@ def main():
         sh(f"git -C /repo worktree add -q {sv} HEAD")
         target, env = sv, f"VERIF_REPO={sv} "
     rc, out = sh(f"git -C {target} apply --check {patch}")
+    three = ""
+    if rc != 0:
+        # /repo has moved on since the seed was written (fix: commits): fall back to a 3-way merge of the patch
+        rc, out = sh(f"git -C {target} apply --3way --check {patch}")
+        three = "--3way "
     if rc != 0:
         res["apply_error"] = out[-400:]
         res["our_check"] = "patch does not apply to /repo HEAD"
     else:
         results = {}
         try:
-            sh(f"git -C {target} apply {patch}")
+            sh(f"git -C {target} apply {three}{patch}")
             for c in [pid] + also:
                 rc, out = sh(f"{env}./check {c} --tier quick", cwd=VERIF, timeout=3000)
                 lines = [l for l in out.splitlines() if l.startswith("VIOLATION") or l.startswith("[C") and "-> exit" in l]
